@@ -138,6 +138,7 @@ func c02Key(c *StructCase) string {
 func TestC02(t *testing.T) {
 	rapid.Check(t, func(t *rapid.T) {
 		c := genC02Case(t)
+		takeGenFlags()
 		msg, res, skipped := checkC02(c)
 		if skipped != "" {
 			ev.Excluded(strings.SplitN(skipped, ":", 2)[0])
